@@ -68,8 +68,11 @@ def variant(prog, k):
     """A semantically equivalent rewrite of the program."""
     v = copy.deepcopy(prog)
     nested = any(c['ctx'] in progs.NESTED_CTXS for c in prog['calls'])
-    flat = [c for c in progs.CTXS if c not in progs.NESTED_CTXS and c != 'lambda_default']
+    rebinding = ('comp_rebinds_args', 'comp_rebinds_kwargs')      # these contexts change what the star denotes
+    flat = [c for c in progs.CTXS if c not in progs.NESTED_CTXS and c != 'lambda_default' and c not in rebinding]
     for i, c in enumerate(v['calls']):
+        if c['ctx'] in rebinding:
+            continue
         if c['ctx'] in progs.NESTED_CTXS:
             # stay nested (the taint rule differs between nested and top-level calls)
             c['ctx'] = progs.NESTED_CTXS[(progs.NESTED_CTXS.index(c['ctx']) + 1 + k) % len(progs.NESTED_CTXS)]
@@ -120,6 +123,9 @@ def check_prog(prog, stats):
             stats.cls('taint/%s/%s' % (t['name'], t['where']))
         # ---------------------------------------------------------------- oracle 2
         base_view = (expect.param_list(R), label_view(R))
+        # the order in which several calls are merged is not fixed (and the walker looks at calls in nested
+        # scopes last): a rewrite may land on another admissible alternative of the same expectation
+        admissible = [base_view] + [(expect.param_list(a), label_view(a)) for a in X.sig]
         for k in range(2):
             v = variant(prog, k)
             if v == prog:
@@ -133,7 +139,12 @@ def check_prog(prog, stats):
                     stats.fail('C06/variant-retrieval-raised/%s' % type(e).__name__, {'prog': v}, 'sigtools.signature raised %s: %s for\n%s' % (type(e).__name__, e, bv.src))
                     continue
                 vv = (expect.param_list(Rv), label_view(Rv))
-                if vv[0] != base_view[0]:
+                # depth maps do not depend on the merge order (and are shifted for partial objects): taken from the base
+                if any(vv[0] == a[0] and vv[1][0] == a[1][0] and vv[1][1] in (a[1][1], base_view[1][1]) for a in admissible):
+                    stats.cls('metamorphic/equal')
+                    if interesting:
+                        stats.nontriv(('variant', k) + progs.skeleton(prog))
+                elif vv[0] != base_view[0]:
                     stats.fail('C06/metamorphic/parameters', {'prog': prog, 'variant': v},
                                'base program reports %s, the equivalent rewrite reports %s\n--- base\n%s\n--- rewrite\n%s' % (R, Rv, b.src.split('def OTHER')[1], bv.src.split('def OTHER')[1]))
                 elif vv[1] != base_view[1]:
@@ -164,6 +175,10 @@ def run(ctx):
     tasks += [(s + 300, n // 64, {'routes': ('global', 'closure', 'attr', 'self_method', 'param'), 'allow_taints': False})
               for s in ctx.shard_seeds(16)]
     tasks += [(s + 400, n // 64, {'routes': ('global', 'self_attr', 'partial_inner'), 'max_calls': 1})
+              for s in ctx.shard_seeds(16)]
+    # nested scopes and default-value positions (calls the walker defers or could overlook)
+    tasks += [(s + 900, n // 64, {'ctxs': progs.NESTED_CTXS + ('lambda_default', 'return'), 'allow_taints': False,
+                                  'routes': ('global', 'closure', 'param', 'self_method', 'attr')})
               for s in ctx.shard_seeds(16)]
     total.merge(ctx.pmap(shard_hyp, tasks))
     return total
